@@ -360,18 +360,33 @@ def diagonally_dominant(ctx, n, by):
     ctx.check_true('lu_solve.returns_a_result', returned, 'ZeroDivisionError (zero pivot) on a strictly diagonally dominant matrix')
 
 
+def _colloc_shapes(tier):
+    out = [dict(p=1, pts=2, fixed=[]), dict(p=1, pts=3, fixed=[]), dict(p=1, pts=4, fixed=[]), dict(p=2, pts=3, fixed=[]),
+           dict(p=2, pts=4, fixed=[]), dict(p=2, pts=5, fixed=[]), dict(p=3, pts=4, fixed=[]),
+           dict(p=3, pts=5, fixed=[[2, '1/2']]), dict(p=3, pts=5, fixed=[[1, '1/5']]), dict(p=3, pts=5, fixed=[[3, '3/4']])]
+    if tier == 'thorough':
+        out += [dict(p=1, pts=5, fixed=[]), dict(p=2, pts=6, fixed=[[2, '2/5']]),
+                dict(p=3, pts=6, fixed=[[2, '2/5'], [3, '3/5'], [4, '7/10']]), dict(p=4, pts=5, fixed=[]),
+                dict(p=4, pts=6, fixed=[[1, '1/10'], [3, '3/5'], [4, '7/10']])]
+    # fully concrete parameter sets (chord-length-like, non-uniform) up to the largest size of the quantifier
+    for p, pts in ((2, 6), (3, 8)) if tier == 'quick' else ((2, 6), (2, 8), (3, 7), (3, 8), (4, 8), (5, 8)):
+        out.append(dict(p=p, pts=pts, fixed=[[i, '%d/%d' % (i * i + i, pts * pts - pts)] for i in range(1, pts - 1)]))
+    return out
+
+
 @scenario('C16', fns=['linalg.lu_solve', 'linalg.lu_decomposition', '_linalg.doolittle', 'fitting._build_coeff_matrix',
                       'fitting.compute_knot_vector'],
-          quick=[dict(p=1, pts=2), dict(p=1, pts=3), dict(p=1, pts=4), dict(p=2, pts=3), dict(p=2, pts=4), dict(p=2, pts=5),
-                 dict(p=3, pts=4), dict(p=3, pts=5)],
-          thorough=[dict(p=p, pts=p + 1 + k) for p in (1, 2, 3, 4) for k in (0, 1, 2, 3) if not (p == 4 and k == 3)])
-def collocation(ctx, p, pts):
-    """requires: interpolation parameters 0 = u_0 < u_1 < ... < u_m = 1 (symbolic), knot vector by averaging (the real
-                 fitting.compute_knot_vector), collocation matrix N_j(u_i) by the real fitting._build_coeff_matrix
+          quick=lambda: _colloc_shapes('quick'), thorough=lambda: _colloc_shapes('thorough'))
+def collocation(ctx, p, pts, fixed):
+    """requires: interpolation parameters 0 = u_0 < u_1 < ... < u_m = 1 (symbolic; `fixed` pins some of them to the
+                 stated constants where the pivots would otherwise be polynomials beyond the solver's reach), knot vector
+                 by averaging (the real fitting.compute_knot_vector), collocation matrix N_j(u_i) by the real
+                 fitting._build_coeff_matrix
        ensures : lu_solve returns a result (no zero pivot) and A x = b for a symbolic right-hand side"""
     la = ctx.geomdl('linalg')
     fit = ctx.geomdl('fitting')
-    inner = [ctx.num('u%d' % i) for i in range(1, pts - 1)]
+    fx = dict((i, Fraction(v)) for i, v in fixed)
+    inner = [ctx.lit(fx[i]) if i in fx else ctx.num('u%d' % i) for i in range(1, pts - 1)]
     uk = [ctx.lit(0)] + inner + [ctx.lit(1)]
     ctx.assume_sorted(uk, strict=True)
     kv = fit.compute_knot_vector(p, pts, uk)
@@ -441,3 +456,179 @@ def history(ctx, g, f, n, gsigns, fsigns):
     plain_call(la, g, gargs)
     CONTRACT[f](ctx, la, *fargs, tag='after[%s].' % g)
     ctx.check_true('after[%s;%s].first_arguments_unchanged' % (g, f), all(same_objects(a, s) for a, s in zip(gargs, gsnap)))
+
+
+# ------------------------------------------------------------------------------------------------
+# vector / matrix helpers equal their definitions
+# ------------------------------------------------------------------------------------------------
+def _vec(ctx, name, dim):
+    return [ctx.num('%s%d' % (name, i)) for i in range(dim)]
+
+
+@scenario('C16', fns=['linalg.vector_dot', 'linalg.vector_multiply', 'linalg.vector_sum', 'linalg.vector_mean',
+                      'linalg.vector_generate', 'linalg.point_translate', 'linalg.point_mid'],
+          quick=[dict(dim=d) for d in (1, 2, 3, 4)], thorough=[dict(dim=d) for d in (1, 2, 3, 4, 6)])
+def vector_algebra(ctx, dim):
+    """ensures: dot = sum v_i w_i; multiply = c v; sum = v + c w (c defaults to 1); mean = (u + v + w)/3;
+                generate = end - start; translate = p + v; mid = (p + q)/2; arguments unchanged; empty input raises"""
+    la = ctx.geomdl('linalg')
+    u, v, w = _vec(ctx, 'u', dim), _vec(ctx, 'v', dim), _vec(ctx, 'w', dim)
+    c = ctx.num('c')
+    snap = [list(u), list(v), list(w)]
+    ctx.check_eq('vector_dot', la.vector_dot(u, v), _sum(a * b for a, b in zip(u, v)))
+    ctx.check_eq_vec('vector_multiply', la.vector_multiply(u, c), [a * c for a in u])
+    ctx.check_eq_vec('vector_sum.coeff', la.vector_sum(u, v, c), [a + c * b for a, b in zip(u, v)])
+    ctx.check_eq_vec('vector_sum.default', la.vector_sum(u, v), [a + b for a, b in zip(u, v)])
+    ctx.check_eq_vec('vector_mean.3', la.vector_mean(u, v, w), [(a + b + d) / 3 for a, b, d in zip(u, v, w)])
+    ctx.check_eq_vec('vector_mean.1', la.vector_mean(u), u)
+    ctx.check_eq_vec('vector_mean.list', la.vector_mean(*[u, v]), [(a + b) / 2 for a, b in zip(u, v)])
+    ctx.check_eq_vec('vector_generate', la.vector_generate(u, v), [b - a for a, b in zip(u, v)])
+    ctx.check_eq_vec('point_translate', la.point_translate(u, v), [a + b for a, b in zip(u, v)])
+    ctx.check_eq_vec('point_mid', la.point_mid(u, v), [(a + b) / 2 for a, b in zip(u, v)])
+    ctx.check_true('arguments_unchanged', all(x is y for s, t in zip(snap, (u, v, w)) for x, y in zip(s, t)))
+    ctx.check_raises('vector_dot.empty_raises', ValueError, la.vector_dot, [], v)
+    ctx.check_raises('vector_generate.empty_raises', ValueError, la.vector_generate, u, [])
+    ctx.check_raises('point_translate.empty_raises', ValueError, la.point_translate, [], [])
+    ctx.check_raises('point_mid.dimension_mismatch_raises', ValueError, la.point_mid, u, v + [c])
+
+
+@scenario('C16', fns=['linalg.vector_cross'], quick=[dict(d1=2, d2=2), dict(d1=3, d2=3), dict(d1=2, d2=3), dict(d1=3, d2=2)])
+def vector_cross(ctx, d1, d2):
+    """ensures: the 3-D cross product (2-D vectors embedded with z = 0): component formula, antisymmetry,
+                orthogonality to both factors; sizes outside 2..3 raise ValueError"""
+    la = ctx.geomdl('linalg')
+    v, w = _vec(ctx, 'v', d1), _vec(ctx, 'w', d2)
+    a = list(v) + [0] * (3 - d1)
+    b = list(w) + [0] * (3 - d2)
+    want = [a[1] * b[2] - a[2] * b[1], a[2] * b[0] - a[0] * b[2], a[0] * b[1] - a[1] * b[0]]
+    got = la.vector_cross(v, w)
+    ctx.check_eq_vec('vector_cross', got, want)
+    ctx.check_eq_vec('vector_cross.antisymmetric', la.vector_cross(w, v), [-x for x in want])
+    ctx.check_eq('vector_cross.orthogonal_to_first', _sum(x * y for x, y in zip(got, a)), 0)
+    ctx.check_eq('vector_cross.orthogonal_to_second', _sum(x * y for x, y in zip(got, b)), 0)
+    ctx.check_raises('vector_cross.size1_raises', ValueError, la.vector_cross, v[:1], w)
+    ctx.check_raises('vector_cross.size4_raises', ValueError, la.vector_cross, v, list(w) + [w[0]] * (4 - d2))
+    ctx.check_raises('vector_cross.empty_raises', ValueError, la.vector_cross, [], w)
+
+
+@scenario('C16', fns=['linalg.vector_magnitude', 'linalg.vector_normalize', 'linalg.point_distance', 'linalg.vector_generate'],
+          quick=[dict(dim=d) for d in (1, 2, 3)], thorough=[dict(dim=d) for d in (1, 2, 3, 4)])
+def vector_norms(ctx, dim):
+    """ensures: magnitude >= 0 and magnitude^2 = sum v_i^2; distance likewise on q - p; for v != 0 normalize(v) * |v| = v
+                and has unit length (also through vector_generate(normalize=True)); the zero vector raises ValueError"""
+    la = ctx.geomdl('linalg')
+    v, p, q = _vec(ctx, 'v', dim), _vec(ctx, 'p', dim), _vec(ctx, 'q', dim)
+    m = la.vector_magnitude(v)
+    ctx.check_eq('vector_magnitude.squared', m * m, _sum(x * x for x in v))
+    ctx.check('vector_magnitude.nonnegative', ctx.ge(m, 0))
+    d = la.point_distance(p, q)
+    ctx.check_eq('point_distance.squared', d * d, _sum((b - a) * (b - a) for a, b in zip(p, q)))
+    ctx.check('point_distance.nonnegative', ctx.ge(d, 0))
+    ctx.check_eq('point_distance.symmetric', la.point_distance(q, p), d)
+    ctx.check_raises('point_distance.dimension_mismatch_raises', ValueError, la.point_distance, p, q + [q[0]])
+    ctx.check_raises('vector_normalize.zero_raises', ValueError, la.vector_normalize, [0] * dim)
+    ctx.check_raises('vector_normalize.empty_raises', ValueError, la.vector_normalize, [])
+    ctx.assume(ctx.any(*[ctx.ne(x, 0) for x in v]))
+    n = la.vector_normalize(v)
+    ctx.check_true('vector_normalize.len', len(n) == dim)
+    ctx.check_eq_vec('vector_normalize.times_magnitude', [x * m for x in n], v)
+    ctx.check_eq('vector_normalize.unit_length', _sum(x * x for x in n), 1)
+    ctx.assume(ctx.any(*[ctx.ne(a, b) for a, b in zip(p, q)]))
+    g = la.vector_generate(p, q, normalize=True)
+    ctx.check_eq_vec('vector_generate.normalized', [x * d for x in g], [b - a for a, b in zip(p, q)])
+
+
+@scenario('C16', fns=['linalg.matrix_transpose', 'linalg.matrix_multiply', 'linalg.matrix_scalar'],
+          quick=[dict(r=1, k=1, c=1), dict(r=2, k=3, c=2), dict(r=3, k=2, c=4), dict(r=3, k=3, c=3)],
+          thorough=[dict(r=1, k=1, c=1), dict(r=2, k=3, c=2), dict(r=3, k=2, c=4), dict(r=3, k=3, c=3), dict(r=4, k=5, c=3)])
+def matrix_helpers(ctx, r, k, c):
+    """ensures: transpose[j][i] = m[i][j]; product[i][j] = sum_k a[i][k] b[k][j] (also matrix x vector);
+                scalar[i][j] = s m[i][j]; (A B)^T = B^T A^T; size mismatch raises; arguments unchanged"""
+    la = ctx.geomdl('linalg')
+    exc = ctx.geomdl('exceptions').GeomdlException
+    A, B = sym_matrix(ctx, r, k, 'a'), sym_matrix(ctx, k, c, 'b')
+    x = _vec(ctx, 'x', k)
+    s = ctx.num('s')
+    sa, sb = clone(A), clone(B)
+    At = la.matrix_transpose(A)
+    ctx.check_true('matrix_transpose.shape', len(At) == k and all(len(row) == r for row in At))
+    ctx.check_eq_grid('matrix_transpose', At, [[A[i][j] for i in range(r)] for j in range(k)])
+    AB = la.matrix_multiply(A, B)
+    ctx.check_true('matrix_multiply.shape', len(AB) == r and all(len(row) == c for row in AB))
+    ctx.check_eq_grid('matrix_multiply', AB, matmul(A, B))
+    ctx.check_eq_vec('matrix_multiply.vector', la.matrix_multiply(A, x), matvec(A, x))
+    ctx.check_eq_grid('matrix_multiply.transpose_rule', la.matrix_transpose(AB),
+                      la.matrix_multiply(la.matrix_transpose(B), At))
+    ctx.check_eq_grid('matrix_scalar', la.matrix_scalar(A, s), [[s * v for v in row] for row in A])
+    ctx.check_eq_grid('matrix_multiply.identity', la.matrix_multiply(A, la.matrix_identity(k)), A)
+    ctx.check_raises('matrix_multiply.mismatch_raises', exc, la.matrix_multiply, A, B + [B[0]])
+    ctx.check_true('arguments_unchanged', same_objects(A, sa) and same_objects(B, sb))
+    c_matrix_identity(ctx, la, k, tag='after[matrix_multiply].')
+
+
+@scenario('C16', fns=['linalg.binomial_coefficient'], quick=[dict(kmax=12)], thorough=[dict(kmax=30)])
+def binomial(ctx, kmax):
+    """ensures (concrete sweep 0 <= k <= kmax, 0 <= i <= k + 2): C(k, 0) = C(k, k) = 1, Pascal's rule
+                C(k, i) = C(k-1, i-1) + C(k-1, i), C(k, i) = 0 for i > k, symmetric; a repeated (memoised) call returns
+                the same value"""
+    la = ctx.geomdl('linalg')
+    for k in range(kmax + 1):
+        ctx.check_eq('binomial(%d,0)=1' % k, la.binomial_coefficient(k, 0), 1)
+        ctx.check_eq('binomial(%d,%d)=1' % (k, k), la.binomial_coefficient(k, k), 1)
+        for i in range(1, k):
+            ctx.check_eq('binomial(%d,%d).pascal' % (k, i), la.binomial_coefficient(k, i),
+                         la.binomial_coefficient(k - 1, i - 1) + la.binomial_coefficient(k - 1, i))
+            ctx.check_eq('binomial(%d,%d).symmetric' % (k, i), la.binomial_coefficient(k, i), la.binomial_coefficient(k, k - i))
+            ctx.check_eq('binomial(%d,%d).closed_form' % (k, i), la.binomial_coefficient(k, i), spec.binom(k, i))
+        for i in (k + 1, k + 2):
+            ctx.check_eq('binomial(%d,%d)=0' % (k, i), la.binomial_coefficient(k, i), 0)
+    for k in range(kmax + 1):
+        ctx.check_eq('binomial(%d,%d).memoised_again' % (k, k // 2), la.binomial_coefficient(k, k // 2), spec.binom(k, k // 2))
+
+
+@scenario('C16', fns=['linalg.linspace'],
+          quick=[dict(num=n, case=c) for n in (1, 2, 3, 5) for c in ('up', 'down')] + [dict(num=n, case='close') for n in (1, 4)],
+          thorough=[dict(num=n, case=c) for n in (1, 2, 3, 5, 8, 17) for c in ('up', 'down')] + [dict(num=n, case='close') for n in (1, 4)])
+def linspace(ctx, num, case):
+    """requires: up: stop - start > 1e-7; down: start - stop > 1e-7; close: |start - stop| <= 1e-7 (the code's tolerance)
+       ensures : up/down: len = num, first = start, last = stop (num > 1), out[i] = start + i (stop - start)/(num - 1),
+                 equal gaps; num = 1: [start]; close: a non-empty list whose every entry is start"""
+    la = ctx.geomdl('linalg')
+    a, b = ctx.num('start'), ctx.num('stop')
+    if case == 'up':
+        ctx.assume(ctx.gt(b - a, LINSPACE_TOL))
+    elif case == 'down':
+        ctx.assume(ctx.gt(a - b, LINSPACE_TOL))
+    else:
+        ctx.assume(ctx.le(b - a, LINSPACE_TOL), ctx.le(a - b, LINSPACE_TOL))
+    out = la.linspace(a, b, num)
+    if case == 'close':
+        ctx.check_true('linspace.close.nonempty', 1 <= len(out) <= num)
+        for i, x in enumerate(out):
+            ctx.check_eq('linspace.close[%d]=start' % i, x, a)
+        return
+    ctx.check_true('linspace.len', len(out) == num, 'len = %d, num = %d' % (len(out), num))
+    ctx.check_eq('linspace.first=start', out[0], a)
+    if num > 1:
+        ctx.check_eq('linspace.last=stop', out[-1], b)
+        for i in range(num):
+            ctx.check_eq('linspace[%d]' % i, out[i], a + (b - a) * Fraction(i, num - 1))
+        for i in range(num - 2):
+            ctx.check_eq('linspace.even_gap[%d]' % i, out[i + 1] - out[i], out[i + 2] - out[i + 1])
+        mono = ctx.lt if case == 'up' else ctx.gt
+        for i in range(num - 1):
+            ctx.check('linspace.monotone[%d]' % i, mono(out[i], out[i + 1]))
+
+
+@scenario('C16', fns=['linalg.frange'], quick=[dict(k=k) for k in (1, 2, 5)], thorough=[dict(k=k) for k in (1, 2, 5, 9)])
+def frange(ctx, k):
+    """requires: step > 0, stop = start + k step (the way _voxelize.generate_voxel_grid and the knot vector generator
+                 call it)
+       ensures : yields exactly start + i step for i = 0..k; the last value is stop"""
+    la = ctx.geomdl('linalg')
+    a, h = ctx.num('start'), ctx.num('step')
+    ctx.assume(ctx.gt(h, 0))
+    out = list(la.frange(a, a + k * h, h))
+    ctx.check_true('frange.len', len(out) == k + 1, 'len = %d, expected %d' % (len(out), k + 1))
+    ctx.check_eq_vec('frange.values', out, [a + i * h for i in range(k + 1)])
+    ctx.check_eq('frange.last=stop', out[-1], a + k * h)
